@@ -15,6 +15,7 @@ mod interpose;
 mod c13;
 mod c15;
 mod c16;
+mod c16t;
 mod c19;
 mod c20;
 mod p1;
@@ -35,6 +36,7 @@ fn dispatch(cmd: &str) -> Option<RunFn> {
 		"c02x" => c02x::run,
 		"c08" => c08::run,
 		"c16" => c16::run,
+		"c16t" => c16t::run,
 		"c13" => c13::run,
 		"c06" => c06::run,
 		"c10" => c10::run,
@@ -64,6 +66,9 @@ fn main() {
 	}
 	if cmd == "c18-child" {
 		std::process::exit(c18::child_main(&args[2..]));
+	}
+	if cmd == "c16t-child" {
+		std::process::exit(c16t::child_main(&args[2..]));
 	}
 	let seed: u64 = arg(&args, "--seed").map(|s| s.parse().unwrap()).unwrap_or(1);
 	let cases: u64 = arg(&args, "--cases").map(|s| s.parse().unwrap()).unwrap_or(10);
